@@ -69,7 +69,7 @@ def _kind_of_app(e):
     nm = e.decl().name()
     if k == z3.Z3_OP_SELECT:
         return "arr"
-    if nm in ("seq.nth", "seq.nth_i", "seq.nth_u", "seq.at", "nth.int"):
+    if nm in ("seq.nth", "seq.nth_i", "seq.nth_u", "seq.at") or nm.startswith("nth."):
         return "seq"
     return None
 
@@ -94,7 +94,7 @@ def _index_terms1(e0):
     """(term, kind) for Int-sorted arguments of select / seq.nth applications in quantifier-free parts."""
     from .smt import raw_find
     found = {}
-    for e in raw_find(e0, ("select", "seq.nth", "seq.nth_i", "seq.nth_u", "seq.at", "nth.int"), skip_quant=True):
+    for e in raw_find(e0, ("select", "seq.nth", "seq.nth_i", "seq.nth_u", "seq.at", "nth.int", "nth.Dyn", "nth.Ref", "nth.String"), skip_quant=True):
         kd = _kind_of_app(e)
         if kd is None or e.num_args() < 2:
             continue
@@ -376,14 +376,15 @@ def nth_axioms(formulas, rounds=5, limit=600):
             if key in done:
                 continue
             done.add(key)
-            for ax in _nth_def(S, J, nth_int):
+            nf = a.decl()
+            for ax in _nth_def(S, J, nf):
                 new.append(ax)
             for B in eqs.get(S.get_id(), []):
                 k2 = (B.get_id(), J.get_id())
                 if k2 not in done and _structured(B):
                     done.add(k2)
-                    new.append(nth_int(S, J) == nth_int(B, J))
-                    new += _nth_def(B, J, nth_int)
+                    new.append(nf(S, J) == nf(B, J))
+                    new += _nth_def(B, J, nf)
         if not new or len(out) > limit:
             break
         out += new
@@ -401,7 +402,7 @@ def _nth_apps(f):
         return r[0]
     apps = {}
     from .smt import raw_find
-    for e in raw_find(f, ("nth.int",), skip_quant=True):
+    for e in raw_find(f, ("nth.int", "nth.Dyn", "nth.Ref", "nth.String"), skip_quant=True):
         if e.num_args() == 2 and not _has_var(e):
             apps[e.get_id()] = e
     res = list(apps.values())
